@@ -709,7 +709,8 @@ def readQuery (s : Str) : Option TQuery :=
         | _ => none
     else
       (sym '{' r1).bind fun r2 => (readQPat r2).bind fun x =>
-        if x.2.1 = vs ∧ vs ≠ [] then (sym '}' (optDot x.2.2)).bind fun r3 =>
+        -- the selected variables are exactly the variables of the pattern (in any order)
+        if x.2.1.all (vs.contains ·) && vs.all (x.2.1.contains ·) && !vs.isEmpty then (sym '}' (optDot x.2.2)).bind fun r3 =>
           (readModifiers r3).map fun m => .triples x.1 m.1 m.2.1 m.2.2
         else none
 
